@@ -314,6 +314,10 @@ func TestVerifC13Inputs(t *testing.T) {
 					var hdr [][2]string
 					if xfp != "" {
 						hdr = [][2]string{{"X-Forwarded-Proto", xfp}}
+						if q != "" {
+							// a proxy in front that also speaks RFC 7239 (a second fabio does): the scheme it names is the same
+							hdr = append(hdr, [2]string{"Forwarded", "for=1.2.3.4; proto=" + xfp})
+						}
 					}
 					target := p
 					if q != "" {
